@@ -19,7 +19,9 @@ fn main() -> ExitCode {
         match std::fs::read(&path).map_err(|e| e.to_string()).and_then(|b| gdsim::props::c19::world_from_scenario_file(&b)) {
             Ok(world) => {
                 let rc = std::rc::Rc::new(std::cell::RefCell::new(world));
-                gamedig::verif_hook::install(Box::new(gdsim::world::SimBackend(rc)));
+                gamedig::verif_hook::install(Box::new(gdsim::world::SimBackend(rc.clone())));
+                // the HTTP client's transport and clock (vendor/ureq) lead to the same world
+                gdsim::install_http_transport(Box::new(gdsim::world::SimBackend(rc)));
             }
             Err(e) => {
                 eprintln!("HARNESS-ERROR clisim: bad scenario file {path}: {e}");
